@@ -97,6 +97,11 @@ def cases(tier, seed):
                         c["history"] = ["act"] + list(hist)
                         c["save_at"] = len(c["history"])
                     out.append(c)
+    # directed: bandits with a strong regulariser towards their initial output layer (the anchor is part of what is restored)
+    for algo in ("NeuralUCB", "NeuralTS"):
+        for path in ("load", "load_checkpoint"):
+            out.append({"algo": algo, "obs": "vector", "history": ["learn", "learn", "act", "learn"], "save_at": 4, "path": path, "k": 2,
+                        "seed": int(rng.integers(1 << 30)), "eval_mode_at_save": False, "nondefault": False, "reg": 0.5, "receiver": None})
     # population-level checkpoints through the helper of the training loops (algorithms without the known carriers)
     for algo in ("CQN", "RainbowDQN", "TD3", "NeuralUCB", "MATD3"):
         for overwrite in (False, True):
